@@ -46,7 +46,8 @@ func init() {
 		cfg := core
 		cfg.Globals = false
 		cfg.Predicates = false
-		return searchCases(r, st, sizes(tier, 1500, 30000), cfg, 4, 12, "g")
+		cs := searchCases(r, st, sizes(tier, 1200, 30000), cfg, 4, 12, "g")
+		return append(cs, bindFailCases(r, st, sizes(tier, 700, 15000), "b")...)
 	}
 	propGens["C03"] = func(r *rand.Rand, tier string, st *Stats) []Case {
 		cfg := core
@@ -55,7 +56,8 @@ func init() {
 		cfg.Transforms = true
 		cfg.Amounts = true
 		cfg.MultiCmd = true
-		return searchCases(r, st, sizes(tier, 1500, 30000), cfg, 4, 20, "g")
+		cs := searchCases(r, st, sizes(tier, 1300, 30000), cfg, 4, 20, "g")
+		return append(cs, bindFailCases(r, st, sizes(tier, 300, 6000), "b")...)
 	}
 	propGens["C05"] = func(r *rand.Rand, tier string, st *Stats) []Case {
 		cfg := core
